@@ -209,6 +209,17 @@ func formatInlineSQL(cmd *cobra.Command, sql string) error {
 		return fmt.Errorf("formatting failed: %w", err)
 	}
 
+	// In check mode, compare original and formatted (same verdict as for files and stdin)
+	if formatCheck {
+		if sql != formattedSQL {
+			return fmt.Errorf("inline SQL needs formatting")
+		}
+		if verbose {
+			fmt.Fprintf(cmd.OutOrStdout(), "inline SQL is properly formatted\n")
+		}
+		return nil
+	}
+
 	// Ensure trailing newline
 	if !strings.HasSuffix(formattedSQL, "\n") {
 		formattedSQL += "\n"
